@@ -62,3 +62,12 @@ claim("C08",
  "Relational crash/restart harness over the real App on the iavl model: a node dying at any of the 5 ABCI call boundaries of a block (in-memory heap dropped, a new App opened on the same database, options reloaded as Prepare does) reports the version/hash of the last completed commit through Info and, after the block is replayed, produces the same transcripts for it and for the next block as a node that never stopped.",
  "Decided relative to the IAVL contract (SaveVersion atomic, Load returns last saved version): durability below the iavl API and Tendermint's handshake are not decided by this technique. One crash, one transaction kind (SEND), 2 blocks. The reward-calculator restart independence is C13's harness.",
  "DESIGN.md §6 C08")
+
+claim("C14",
+ "One create / fund / withdraw-funds / cancel transaction through the real txDeliverer from an arbitrary proposal record (absent; funding or voting in the active store; cancelled or under-funded in the failed store; arbitrary proposer, goal, deadline, per-funder contributions): stage moves only forward (fund only while funding and before the deadline, voting begins exactly when the goal is met; cancel only by the proposer while funding), withdrawals only from cancelled / under-funded proposals, at most the own contribution, crediting the beneficiary with at most what left the escrow and debiting nobody else; the total-funds record stays the sum of the contributions; create only for an id without a record.",
+ "Thin: vote, expire and finalise (tally, configuration update exactly once, distribution of funds) are not yet encoded and are outside this claim; general-type proposals only; 2 parties; one step.",
+ "DESIGN.md §6 C14")
+claim("C20",
+ "One ONS transaction of any of the 7 kinds through the real txDeliverer from a symbolic registry (a.ol absent/present with arbitrary owner, beneficiary, expiry, sale flag/price, active flag; sub-domain x.a.ol absent/present), actor any party: records change only by their owner or through a purchase; a purchase on sale debits the buyer at least the asking price and credits the previous owner exactly that; an expired name costs at least the base price (to the fee pool); create only for a free name with expiry = version + floor((price-base)/perBlock), sub-names inherit the parent's expiry; renew extends by exactly floor(price/perBlock) and sub-names follow.",
+ "Names limited to a.ol / x.a.ol (regexp and URL parsing run natively on concrete text); balances < 2^100 nue so that the Int64() conversion of purchased block counts stays in range (above that the expiry arithmetic wraps: outside the bound, stated); devnet ONS options; one step.",
+ "DESIGN.md §6 C20")
